@@ -255,6 +255,16 @@ def gen_tables(repo, res):
     scenario("interior facet integral on an interval", "interior_facet", "facet", intv, "interval", [[]], 2,
              [mt("u+", element(0, "piecewise", 2, intv), "+", ld=()), mt("u-", element(0, "piecewise", 2, intv), "-", ld=())], ident)
     scenario("facet expression on a tetrahedron", "expression", "facet", tet, "triangle", pts2, 2, cellmts(tet), [(o_, r_) for o_ in range(3) for r_ in range(2)])
+    scenario("facet expression on a hexahedron", "expression", "facet", hexa, "quadrilateral", pts2, 2, cellmts(hexa), [(o_, r_) for o_ in range(4) for r_ in range(2)])
+    scenario("facet expression on a triangle", "expression", "facet", tri, "interval", pts1, 2, cellmts(tri), [(0, 0), (0, 1)])
+    # a rule with a single point that is not the centre of the reference facet: constant over its points, but not over the facet's symmetries
+    scenario("interior facet integral on a triangle, one off-centre point", "interior_facet", "facet", tri, "interval", pts1[:1], 2, mts_for(tri), [(0, 0), (0, 1)])
+    scenario("interior facet integral on a tetrahedron, one off-centre point", "interior_facet", "facet", tet, "triangle", pts2[:1], 2, mts_for(tet),
+             [(o_, r_) for o_ in range(3) for r_ in range(2)])
+    scenario("interior facet integral on a hexahedron, one off-centre point", "interior_facet", "facet", hexa, "quadrilateral", pts2[:1], 2, mts_for(hexa),
+             [(o_, r_) for o_ in range(4) for r_ in range(2)])
+    scenario("facet expression on a tetrahedron, one off-centre point", "expression", "facet", tet, "triangle", pts2[:1], 2, cellmts(tet),
+             [(o_, r_) for o_ in range(3) for r_ in range(2)])
     scenario("cell expression on a triangle", "expression", "cell", tri, "triangle", pts2, 1, cellmts(tri), ident)
     scenario("vertex integral on a triangle", "vertex", "vertex", tri, "triangle", pts2[:1], 2, cellmts(tri), ident)
     scenario("ridge integral on a tetrahedron", "ridge", "ridge", tet, "interval", pts1, 2, cellmts(tet), [(0, 0), (0, 1)])
